@@ -28,11 +28,11 @@ func prop(id, title string, rules []string, explain string, notDecided []string,
 
 func init() {
 	prop("C01", "Add/Sub/Mul/Quo/Abs/Neg/Round return the exactly rounded result",
-		[]string{"C01.R1", "C01.R2", "C01.R3", "C01.R4", "C01.R5", "C01.R6", "C20.R1", "C20.R2", "C09.R1", "C05.R4", "C17.R3", "C01.R7", "C10.R3", "C07.R9", "C02.R6", "C01.R8", "C01.R9", "C01.R10"},
+		[]string{"C01.R1", "C01.R2", "C01.R3", "C01.R4", "C01.R5", "C01.R6", "C20.R1", "C20.R2", "C09.R1", "C05.R4", "C17.R3", "C01.R7", "C10.R3", "C07.R9", "C02.R6", "C01.R8", "C01.R9", "C01.R10", "C19.R7"},
 		"Decides the wiring of the rounding kernel for all inputs: the sign that reaches every rounding decision is the sign of the value being rounded; the half comparison is made on the division remainder and a non-zero remainder always raises Inexact or is folded into the coefficient (no lost remainder); single-rounding operations round at most once per path and never skip it; Precision 0 cannot reach the digit-discarding division; the eight decision functions have exactly their modes' truth tables (finite-domain evaluation) and every digit-dropping site consults them.",
 		[]string{"numeric equality with the once-rounded exact result (alignment, digit arithmetic, carries) — quantifies over coefficient values"})
 	prop("C02", "Condition flags describe exactly what happened to the result",
-		[]string{"C02.R1", "C02.R2", "C02.R3", "C02.R4", "C02.R5", "C01.R2", "C01.R7", "C02.R6", "C01.R8"},
+		[]string{"C02.R1", "C02.R2", "C02.R3", "C02.R4", "C02.R5", "C01.R2", "C01.R7", "C02.R6", "C01.R8", "C12.R8"},
 		"Decides: the flag set is closed (12 single bits; only | & &^ ^ on Condition values, so no 13th bit for any input); Inexact⇒Rounded, Overflow⇒Inexact and the Underflow guard hold by construction at every raise site; no Condition produced by a callee is dropped or clobbered outside a reasoned table; the division conditions sit under exactly their specification guards; a non-zero division remainder always raises Inexact.",
 		[]string{"\"Inexact iff the result differs from the exact one\" beyond the remainder rule; over-reporting of Rounded"})
 	prop("C03", "Traps turn raised conditions into errors and never change or hide results",
@@ -74,8 +74,8 @@ func init() {
 		"Decides only structure: Sqrt's final rounding runs with Precision = c.Precision and Rounding = half-even on a working context of larger precision; Cbrt returns zero flags only under operand == d³; both take specials from rootSpecials; their loops are bounded and their wrapper errors surfaced; Sqrt corrects its last digit and derives Inexact from an exact comparison of the candidate's square with the operand; Cbrt works on the operand scaled by its digit count, locates the root among Precision-digit candidates by exact cubes, and every exit applies the scale.",
 		[]string{"correct rounding of Sqrt and the 1-ulp bound of Cbrt: real-analysis error bounds of Newton iterations with tuned guard digits — no sound static argument in reach"})
 	prop("C12", "Exp, Ln, Log10 and Pow are accurate to one unit in the last place",
-		[]string{"C12.R1", "C12.R2", "C12.R3", "C12.R4", "C12.R5", "C06.R9", "C04.R4", "C03.R5", "C06.R7", "C12.R6", "C12.R7"},
-		"Decides: every digit of the ln 10 and 1/ln 10 literals (≈2200 each; the suite uses ≤ 50) equals an independent big-integer computation; the precision table doubles from 1 and is fetched at the working precision; the exact-by-definition shortcuts (exp 0, ln 1, x**0, integer exponents) exist with zero flags; overflow/underflow reports are confined to their guards.",
+		[]string{"C12.R1", "C12.R2", "C12.R3", "C12.R4", "C12.R5", "C06.R9", "C04.R4", "C03.R5", "C06.R7", "C12.R6", "C12.R7", "C12.R9", "C12.R10", "C12.R11"},
+		"Decides: every digit of the ln 10 and 1/ln 10 literals (≈2200 each; the suite uses ≤ 50) equals an independent big-integer computation; the precision table doubles from 1 and is fetched at the working precision; the exact-by-definition shortcuts (exp 0, ln 1, x**0, integer exponents) exist with zero flags; overflow/underflow reports are confined to their guards; Exp's reduced argument is rounded, if at all, at the series' precision; constant tables are asked for guard digits; a float64 image of a Decimal that drives the term count is bounded below and a logarithm taken from the representation uses the adjusted exponent; Pow's working precision covers the digits of its base.",
 		[]string{"one-ulp accuracy: series truncation and guard-digit sufficiency are statements about real numbers"})
 	prop("C13", "Text and binary encodings round-trip every Decimal exactly",
 		[]string{"C13.R1", "C13.R2", "C13.R3", "C13.R4", "C13.R5", "C06.R2", "C07.R8"},
@@ -103,8 +103,8 @@ func init() {
 		[]string{"\"returns exactly what it returns alone\" follows from race freedom plus C06 determinism; not checked separately"},
 		"math/big does not write its read-only arguments", "Go memory model: package initialisation happens-before any use")
 	prop("C19", "Reduce and NumDigits are exact",
-		[]string{"C04.R2", "C06.R1", "C07.R4", "C19.R3", "C19.R4", "C19.R5", "C19.R6", "C04.R3", "C05.R4", "C17.R3", "C16.R5"},
-		"Decides: no nil pointer reaches NumDigits' comparison on the >128-bit negative path; Decimal.Reduce's count reads the operand, never the destination; Context.Reduce strips after rounding and restores the operand's sign; NumDigits' positive and negative arms are mirror images over the same table entry and the table index is guarded.",
+		[]string{"C04.R2", "C06.R1", "C07.R4", "C19.R3", "C19.R4", "C19.R5", "C19.R6", "C19.R7", "C04.R3", "C05.R4", "C17.R3", "C16.R5"},
+		"Decides: no nil pointer reaches NumDigits' comparison on the >128-bit negative path; Decimal.Reduce's count reads the operand, never the destination; Context.Reduce strips after rounding and restores the operand's sign; NumDigits' positive and negative arms are mirror images over the same table entry and the table index is guarded. Decimal.Reduce (and the helpers it may be split into) adds every counter it returns to the exponent exactly once, outside its loops (count and exponent move together).",
 		[]string{"that the table contents and the float estimate are right (numeric; initialisation code)"})
 	prop("C20", "Rounding modes bracket each other and rounding is monotone",
 		[]string{"C20.R1", "C20.R2", "C01.R1", "C01.R2", "C09.R1", "C20.R5", "C05.R4", "C01.R5", "C01.R6", "C02.R5", "C09.R5", "C10.R3", "C02.R6", "C01.R9"},
